@@ -7,6 +7,7 @@ pub mod json;
 pub mod panics;
 pub mod par;
 pub mod report;
+pub mod watch;
 
 pub use bfs::{bfs, BfsStats};
 pub use json::Json;
